@@ -708,7 +708,16 @@ func (f *Frame) boundsCheck(ns *nodeState, idx, n Term, pos token.Pos) {
 		f.safety(ns, "index", App(SBool, "bvult", idx, n), "index out of range", pos)
 		return
 	}
-	f.safety(ns, "index", And(leT(IntLit64(0, idx.Sort), idx), ltT(idx, n)), "index out of range", pos)
+	inRange := And(leT(IntLit64(0, idx.Sort), idx), ltT(idx, n))
+	if f.fc != nil && f.fc.IndexPanics && f.isTop {
+		// `indexpanics`: the run-time panic of an index out of range is an exit of the function like an explicit panic; the
+		// `panics` clause has to characterise it (only-when / whenever obligations)
+		ex := f.ex
+		ex.panics = append(ex.panics, panicExit{reach: And(ns.reach, Not(inRange)), what: "index out of range (" + f.pos(pos) + ")"})
+		ns.reach = ex.vc.Define(f.safetyName("index")+"_R", And(ns.reach, inRange))
+		return
+	}
+	f.safety(ns, "index", inRange, "index out of range", pos)
 }
 
 func (f *Frame) sliceOp(ns *nodeState, x *ssa.Slice) {
